@@ -242,11 +242,14 @@ func (e *env) tree() string {
 	return strings.Join(items, ",")
 }
 
+var optsCount int
+
 func opts(imm bool) *ctlog.UploadOptions {
 	if imm {
 		return &ctlog.UploadOptions{Immutable: true}
 	}
-	if rand.Intn(2) == 0 { // nil options and non-immutable options take the same path
+	optsCount++
+	if optsCount%2 == 0 { // nil options and non-immutable options take the same path
 		return nil
 	}
 	return &ctlog.UploadOptions{ContentType: "text/plain"}
@@ -344,8 +347,8 @@ func scripted() {
 	e.close()
 
 	// 2. big contents around the compare chunk size, 3 MiB
-	e = reset(true)
 	for _, n := range []int{16383, 16384, 16385, 32768, 3 << 20} {
+		e = reset(true)
 		k := fmt.Sprintf("big/%d", n)
 		e.up(k, gen(n, n), true)
 		e.up(k, gen(n, n), true)
@@ -353,7 +356,9 @@ func scripted() {
 		e.up(k, gen(n+1, n), true)
 		e.up(k, gen(n, n+1), true)
 		e.fetch(k)
+		e.close()
 	}
+	e = reset(true)
 	e.up("big/m", gen(3<<20, 9), false)
 	e.up("big/m", gen(3<<20, 10), false)
 	e.fetch("big/m")
@@ -838,8 +843,9 @@ func scripts(name string) (mk bool, ops []sop) {
 		}
 	case "big":
 		return true, []sop{
-			u("staging/1", gen(3<<20, 5), true),
-			u("staging/1", gen(3<<20, 5), true),
+			u("staging/1", gen(200000, 5), true),
+			u("staging/1", gen(200000, 5), true),
+			u("staging/1", gen(200000, 6), true),
 			u("x", lit([]byte("file")), false),
 			u("x/y", lit([]byte("under a file")), false),
 			u("d/e", lit([]byte("1")), false),
@@ -935,6 +941,67 @@ func race(root string, variant string) {
 	}
 }
 
+// replay mode: re-executes differential lines (reset/up/fetch/discard) of a replay file on the
+// real implementation and prints the lines with the results it gets now
+func parseData(spec string) dataSpec {
+	if spec == "-" || spec == "" {
+		return dataSpec{"-", nil}
+	}
+	if spec[0] == 'g' {
+		var n, sd int
+		fmt.Sscanf(spec, "g%d.%d", &n, &sd)
+		return gen(n, sd)
+	}
+	b, _ := hex.DecodeString(spec)
+	return lit(b)
+}
+
+func unhx(s string) []byte {
+	if s == "-" {
+		return nil
+	}
+	b, _ := hex.DecodeString(s)
+	return b
+}
+
+func replayFile(path string) {
+	f, err := os.Open(path)
+	if err != nil {
+		panic(err)
+	}
+	defer f.Close()
+	var e *env
+	sc := bufio.NewScanner(f)
+	sc.Buffer(make([]byte, 1<<20), 64<<20)
+	for sc.Scan() {
+		fs := strings.Split(sc.Text(), "|")
+		if len(fs) < 2 {
+			continue
+		}
+		if fs[0] != "reset" && e == nil {
+			e = reset(true)
+		}
+		switch fs[0] {
+		case "reset":
+			if e != nil {
+				e.close()
+			}
+			e = reset(len(fs) > 2 && fs[2] == "1")
+		case "up":
+			if len(fs) >= 4 {
+				e.up(string(unhx(fs[1])), parseData(fs[2]), fs[3] == "1")
+			}
+		case "fetch":
+			e.fetch(string(unhx(fs[1])))
+		case "discard":
+			e.discard(string(unhx(fs[1])))
+		}
+	}
+	if e != nil {
+		e.close()
+	}
+}
+
 func main() {
 	seed := flag.Int64("seed", 1, "")
 	n := flag.Int("n", 400, "number of generated operations")
@@ -943,6 +1010,7 @@ func main() {
 	script := flag.String("script", "basic", "")
 	scratch := flag.String("scratch", "", "directory below which scratch roots are created")
 	big := flag.Bool("big", false, "")
+	file := flag.String("file", "", "replay file")
 	flag.Parse()
 	scratchBase = *scratch
 	out = bufio.NewWriterSize(os.Stdout, 1<<20)
@@ -959,6 +1027,9 @@ func main() {
 		return
 	case "race":
 		race(*root, *script)
+		return
+	case "replay":
+		replayFile(*file)
 		return
 	}
 	r := rand.New(rand.NewSource(*seed))
